@@ -322,7 +322,7 @@ def main():
     chk.obligation('modelrun_Engine builds', 'build', ok, out[-500:])
     if ok:
         if chk.quick:
-            vlib.run_sharded(chk, shard, 14, extra=(8, 6))
+            vlib.run_sharded(chk, shard, 14, extra=(16, 8))
             vlib.run_sharded(chk, shard_layer, 4, extra=(150,))
         else:
             vlib.run_sharded(chk, shard, 28, extra=(50, 10))
